@@ -466,12 +466,14 @@ def split_job(job):
         scen.materialise(w1, sc['tree0'], sc['series'], opts)
         scen.materialise(w2, sc['tree0'], sc['series'], opts)
         last = None
+        # (every other scenario with the other loader: what one invocation leaves on disk, the next one maps)
+        mm = ['--mmap'] if len(job) > 3 and job[3] else []
         for goal in plan:
-            rc, so, se = ws.push(w1, goal + ['-q', '--threads', threads])
+            rc, so, se = ws.push(w1, goal + ['-q', '--threads', threads] + mm)
             if ws.crashed(rc):
                 return [('crash', 'push %s exits with %s: %s' % (goal, rc, se[-150:]))]
             last = rc
-        rc2, so2, se2 = ws.push(w2, ['-a', '-q', '--threads', 3 - threads if threads in (1, 2) else 1])
+        rc2, so2, se2 = ws.push(w2, ['-a', '-q', '--threads', 3 - threads if threads in (1, 2) else 1] + mm)
         a, b = observable(ws.snapshot(w1)), observable(ws.snapshot(w2))
         probs = []
         if a != b:
